@@ -151,6 +151,18 @@ func Inputs() []input {
 		{Locs: []ap.Loc{L(0, 0x10a0, hh)}, Values: []int64{1000, 1000}},
 	}
 	ins = append(ins, input{"mutually-redundant-residual-edges", p})
+
+	// P11: a node with three in-edges of large, unequal weights (a floating-point sum over them depends on the
+	// order of addition) next to a node whose entropy score equals one of the possible sums exactly
+	p = base()
+	lock, wa, wb, wc, prod, send := ln("sync.(*Mutex).Lock", "s.go", 40), ln("main.workerA", "s.go", 10), ln("main.workerB", "s.go", 20), ln("main.workerC", "s.go", 30), ln("main.producer", "s.go", 50), ln("runtime.chansend", "s.go", 60)
+	p.Stacks = []ap.Stack{
+		{Locs: []ap.Loc{L(0, 0x2000, wa), L(0, 0x2300, lock)}, Values: []int64{51680000000, 51680000000}},
+		{Locs: []ap.Loc{L(0, 0x2100, wb), L(0, 0x2300, lock)}, Values: []int64{18410000000, 18410000000}},
+		{Locs: []ap.Loc{L(0, 0x2200, wc), L(0, 0x2300, lock)}, Values: []int64{17270000000, 17270000000}},
+		{Locs: []ap.Loc{L(0, 0x2400, prod), L(0, 0x2500, send)}, Values: []int64{147803951602, 147803951602}},
+	}
+	ins = append(ins, input{"float-sum-over-edges", p})
 	return ins
 }
 
